@@ -45,7 +45,8 @@ def _secret():
     xml_text = trees.text_strategy("xml", 40)
     return st.one_of(
         xml_text, xml_text,
-        st.sampled_from(["", "a", "pässwörd-ünïcode", "correct horse battery staple", "P@ssw0rd!<&>\"'", " x ", "密码密码密码密码"]),
+        st.sampled_from(["", "a", "pässwörd-ünïcode", "correct horse battery staple", "P@ssw0rd!<&>\"'", " x ", "密码密码密码密码",
+                         "user:pass", "admin123:hunter22", ":", "a:b:c", "c2FsdA==:ZGlnZXN0", "dXNlcm5hbWU6cGFzc3dvcmQ="]),
         st.binary(max_size=40),
         st.integers(64, 4096).flatmap(lambda n: st.sampled_from(["x", "aB", "é", "Zq ", "PassWord-"]).map(lambda c: (c * n)[:n])),
     )
